@@ -72,9 +72,19 @@ Short(c) == (c.kind = "exec" /\ Len(c.args) <= 1)
 \* (every combination of options for the short commands, the three basic ones for all)
 ModesFor(c, v) == IF Short(c) /\ v \in {"start", "restart_with_signal"} THEN ModesAll ELSE Modes
 
-VARIABLES cmd, mode, via, built, pc
+\* How the command-line program hands the events to the command (--emit-events-to): through environment
+\* variables (the default), a file named by WATCHEXEC_EVENTS_FILE (two formats), the command's standard input
+\* (two formats), or not at all.  The CLI does this in the same spawn hook that applies -E and --workdir;
+\* whichever it is, the argument vector, the placement, the -E variables and the working directory are the
+\* same, and the file's name is in the environment exactly in the two file modes.
+EmitModes == {"default", "none", "environment", "file", "json-file", "stdio", "json-stdio"}
+EmitFor(c) == IF c.kind = "cli" /\ Len(c.args) <= 1 THEN EmitModes ELSE {"default"}
+HasEventsFile(e) == e \in {"file", "json-file"}
 
-Init == cmd \in Cmds \cup CliCmds /\ via \in ViasFor(cmd) /\ mode \in ModesFor(cmd, via) /\ built = <<>> /\ pc = "start"
+VARIABLES cmd, mode, via, emit, built, pc
+
+Init == cmd \in Cmds \cup CliCmds /\ via \in ViasFor(cmd) /\ mode \in ModesFor(cmd, via) /\ emit \in EmitFor(cmd)
+        /\ built = <<>> /\ pc = "start"
 
 \* to_spawnable(): the argument vector is pushed part by part
 Build ==
@@ -87,7 +97,7 @@ Build ==
                               THEN /\ built' = Append(built, JoinSp(CliWords(cmd))) /\ pc' = "done"
                               ELSE /\ built' = Append(built, cmd.command) /\ pc' = "args"
          [] pc = "args" -> /\ built' = built \o cmd.args /\ pc' = "done"
-    /\ UNCHANGED <<cmd, mode, via>>
+    /\ UNCHANGED <<cmd, mode, via, emit>>
 
 AssemblyIsArgv == pc = "done" => built = Argv(cmd)
 \* nothing is split or merged: one element per configured token
@@ -96,5 +106,6 @@ LengthPreserved ==
                                 + (IF cmd.kind = "shell" THEN 1 + (IF cmd.progopt = "-" THEN 0 ELSE 1) ELSE 0)
 
 Emit ==
-    pc = "done" => PrintT(<<"CASE", ToJson([cmd |-> cmd, mode |-> mode, via |-> via, argv |-> Argv(cmd), place |-> Placement(mode)])>>)
+    pc = "done" => PrintT(<<"CASE", ToJson([cmd |-> cmd, mode |-> mode, via |-> via, emit |-> emit, events_file |-> HasEventsFile(emit),
+                                              argv |-> Argv(cmd), place |-> Placement(mode)])>>)
 =============================================================================
